@@ -133,6 +133,9 @@ pub fn seeds() -> Vec<(String, Vec<u8>)> {
     // CFF / CFF2 fonts from the C18 generator: seac composites (well-formed, self-referencing, cyclic, chained), recursive
     // and deeply nested subroutines, CID-keyed fonts, CFF2 with blend, hint masks, operand-stack limits
     v.extend(crate::c18::seeds_for_c01());
+    // embedded bitmap tables (CBLC/CBDT, EBLC/EBDT: every index and image format), morx (every subtable type and AAT
+    // lookup format), SVG, STAT, name format 1, post 2.0, kern format 0/2, vmtx from the spec-based otmodel::bitmapenc
+    v.extend(extra_seeds());
     // variable fonts whose name table carries long / non-ASCII strings in the ids that instancing reads to build the
     // names of the instance (1, 2, 4, 6, 16, 17, 25 = Variations PostScript Name Prefix, and the fvar axis / instance ids)
     if let Ok(base) = std::fs::read("/repo/tests/fonts/variable/UnderlineTest-VF.ttf") {
